@@ -98,9 +98,82 @@ def extract(ctx):
     t = rw.sub(s.text, r'FreeObject \*Block::findAllocatedObject\(const void \*address\) const', 'FreeObject *Block_findAllocatedObject(const Block *self, const void *address)', 1, 1, name='sig')
     t = rw.sub(t, r'(?<![\w.>])(objectSize)\b', r'self->\1', 2, name='field')
     t = rw.sub(t, r'\(uintptr_t\)this', '(uintptr_t)self', 1, 1, name='this')
+    t = rw.sub(t, r'\(FreeObject\*\)\(\(uintptr_t\)address - \(', '(FreeObject*)((const char*)address - (', 1, 1, name='integer arithmetic on an address -> char* arithmetic (same address on a flat memory; keeps the pointer attached to its object for CBMC)')
     t = rw.asserts(t, 1, macro='MALLOC_ASSERT')
     out.append(rw.std(t))
     common.write(ctx, 'block.inc', '\n'.join(out) + '\n')
+    # ---- the free path of slab objects: every address that enters a free list is the start of an object ----
+    out = []
+    for pat, what in ((r'std::atomic<FreeObject\*>\s+publicFreeList;', 'publicFreeList'), (r'#define FREELIST_NONBLOCKING 1', 'FREELIST_NONBLOCKING')):
+        if not re.search(pat, load(FE)):
+            raise ExtractionBreak('frontend.cpp: %s changed' % what)
+    MACF = dict(MAC); MACF.update({'FREELIST_NONBLOCKING': 1, 'COLLECT_STATISTICS': 0, 'MALLOC_CHECK_RECURSION': 1, 'MALLOC_DEBUG': 1, 'TBB_REVAMP_TODO': 0})
+    s = slice_block(FE, r'inline bool Block::isProperlyPlaced\(const void \*object\) const')
+    sliced.append('%s:%d Block::isProperlyPlaced' % (FE, s.line))
+    t = rw.sub(s.text, r'inline bool Block::isProperlyPlaced\(const void \*object\) const', 'static bool Block_isProperlyPlaced(const Block *self, const void *object)', 1, 1, name='sig')
+    t = rw.sub(t, r'\(uintptr_t\)this', '(uintptr_t)self', 1, 1, name='this')
+    t = rw.sub(t, r'(?<![\w.>])(objectSize)\b', r'self->\1', 1, name='field')
+    out.append(t)
+    s = slice_block(FE, r'FreeObject \*Block::findObjectToFree\(const void \*object\) const')
+    sliced.append('%s:%d Block::findObjectToFree' % (FE, s.line))
+    t = rw.sub(s.text, r'FreeObject \*Block::findObjectToFree\(const void \*object\) const', 'FreeObject *Block_findObjectToFree(const Block *self, const void *object)', 1, 1, name='sig')
+    t = rw.sub(t, r'(?<![\w.>])(objectSize)\b', r'self->\1', 1, name='field')
+    t = rw.sub(t, r'\bfindAllocatedObject\(object\)', 'Block_findAllocatedObject(self, object)', 1, 1, name='method')
+    t = rw.sub(t, r'\bisProperlyPlaced\(', 'Block_isProperlyPlaced(self, ', 1, 1, name='method')
+    t = rw.asserts(t, 2, macro='MALLOC_ASSERT')
+    out.append(rw.std(t))
+    s = slice_block(FE, r'bool empty\(\) const')
+    sliced.append('%s:%d Block::empty' % (FE, s.line))
+    t = rw.sub(s.text, r'bool empty\(\) const', 'static bool Block_empty(const Block *self)', 1, 1, name='sig')
+    t = rw.sub(t, r'MALLOC_ASSERT\(!isSolidPtr\(publicFreeList\.load\(std::memory_order_relaxed\)\), ASSERT_TEXT\);', '/* assertion on the cross-thread accounting dropped */', 1, 1, name='drop: empty() asserts that no publicly freed object is pending (global accounting)')
+    t = rw.sub(t, r'(?<![\w.>])(allocatedCount)\b', r'self->\1', 1, name='field')
+    out.append(t)
+    s = slice_block(FE, r'void Block::freeOwnObject\(void \*object\)')
+    sliced.append('%s:%d Block::freeOwnObject' % (FE, s.line))
+    t = cxx2c.cpp_resolve(s.text, MACF, 'freeOwnObject')
+    t = rw.sub(t, r'void Block::freeOwnObject\(void \*object\)', 'void Block_freeOwnObject(Block *self, void *object)', 1, 1, name='sig')
+    t = rw.sub(t, r'tlsPtr\.load\(std::memory_order_relaxed\)->markUsed\(\);', 'STUB_markUsed(self);', 1, 1, name='callee stub')
+    t = rw.sub(t, r'tlsPtr\.load\(std::memory_order_relaxed\)->getAllocationBin\(objectSize\)->processEmptyBlock\(this,\s*(?:/\*.*?\*/)?\s*true\);', 'STUB_processEmptyBlock(self);', 1, 1, name='callee stub')
+    t = rw.sub(t, r'if \(empty\(\)\)', 'if (Block_empty(self))', 1, 1, name='method')
+    t = rw.sub(t, r'\bfindObjectToFree\(object\)', 'Block_findObjectToFree(self, object)', 1, 1, name='method')
+    t = rw.sub(t, r'\badjustPositionInBin\(\);', 'STUB_adjustPositionInBin(self);', 1, 1, name='callee stub')
+    t = rw.sub(t, r'\bobjectToFree->next = ([^;]+);', r'FO_SET_NEXT(objectToFree, \1);', 1, 1, name='store into a free object -> FO_SET_NEXT (ghost record + writability obligation; the 16 KB payload is not read back)')
+    t = rw.sub(t, r'(?<![\w.>])(objectSize|allocatedCount|freeList|isFull)\b', r'self->\1', 5, name='field')
+    t = rw.asserts(t, 2, macro='MALLOC_ASSERT')
+    out.append(rw.std(t))
+    s = slice_block(FE, r'(?m)^void Block::freePublicObject \(FreeObject \*objectToFree\)')
+    sliced.append('%s:%d Block::freePublicObject (list push; the mailbox notification after it is cut)' % (FE, s.line))
+    t = cxx2c.cpp_resolve(s.text, MACF, 'freePublicObject')
+    m = re.search(r'\n\s*if\( localPublicFreeList==nullptr \) \{', t)
+    if not m:
+        raise ExtractionBreak('freePublicObject: the "first object on the public list" tail not found')
+    t = t[:m.start()] + '\n    if( localPublicFreeList==nullptr ) STUB_notifyOwner(self);   /* tail cut: mailbox hand-off to the owner bin */\n}'
+    rw.fired['cut tail of freePublicObject'] = 1
+    t = rw.sub(t, r'void Block::freePublicObject \(FreeObject \*objectToFree\)', 'void Block_freePublicObject(Block *self, FreeObject *objectToFree)', 1, 1, name='sig')
+    t = rw.sub(t, r'FreeObject\* localPublicFreeList\{\};', 'FreeObject* localPublicFreeList = NULL;', 1, 1, name='brace-init')
+    t = rw.sub(t, r'MALLOC_ITT_SYNC_RELEASING\([^;]*\);', 'RG_NOP();', 1, 1, name='itt->RG_NOP')
+    t = rw.sub(t, r'\bobjectToFree->next = ([^;]+);', r'FO_SET_NEXT(objectToFree, \1);', 1, 1, name='store into a free object -> FO_SET_NEXT (ghost record + writability obligation; the 16 KB payload is not read back)')
+    t = rw.atomics(t, ['publicFreeList'], 2)
+    t = rw.sub(t, r'(?<![\w.>])(publicFreeList)\b', r'self->\1', 2, name='field')
+    t = rw.std(t)
+    t = rw.number_sites(t, 'fpo', by_kind=True)
+    t = cxx2c.tag_loops(t, 'fpo', rw, expect=1)
+    out.append(t)
+    common.write(ctx, 'free.inc', '\n'.join(out) + '\n')
+    out = []
+    s = slice_block(FE, r'static inline void freeSmallObject\(void \*object\)')
+    sliced.append('%s:%d freeSmallObject' % (FE, s.line))
+    t = cxx2c.cpp_resolve(s.text, MACF, 'freeSmallObject')
+    t = rw.sub(t, r'static inline void freeSmallObject\(void \*object\)', 'static void freeSmallObject(void *object)', 1, 1, name='sig')
+    t = rw.sub(t, r'\(Block \*\)alignDown\(object, slabSize\)', 'BLOCK_OF(object)', 1, 1, name='alignDown on a pointer -> BLOCK_OF: char* arithmetic to the same address (equality with the extracted alignDown is a proof obligation inside the macro)')
+    t = rw.sub(t, r'block->checkFreePrecond\(object\);', 'STUB_checkFreePrecond(block, object);', 1, 1, name='callee stub (debug checks)')
+    t = rw.sub(t, r'block->isStartupAllocObject\(\)', 'STUB_isStartupAllocObject(block)', 1, 1, name='callee stub')
+    t = rw.sub(t, r'\(\(StartupBlock \*\)block\)->free\(object\);', 'STUB_startupFree(block, object);', 1, 1, name='callee stub')
+    t = rw.sub(t, r'block->isOwnedByCurrentThread\(\)', 'STUB_isOwnedByCurrentThread(block)', 1, 1, name='callee stub')
+    t = rw.sub(t, r'block->(freeOwnObject|freePublicObject)\(', r'Block_\1(block, ', 2, 2, name='method')
+    t = rw.sub(t, r'block->(findObjectToFree)\(', r'Block_\1(block, ', 0, name='method (optional)')
+    out.append(rw.std(t))
+    common.write(ctx, 'free_small.inc', '\n'.join(out) + '\n')
     # reallocAligned
     for pat, what in ((r'size_t\s+objectSize;\s*// the size requested by a client', 'LargeMemoryBlock::objectSize'), (r'size_t\s+unalignedSize; // the size requested from backend', 'LargeMemoryBlock::unalignedSize'),
                       (r'struct LargeObjectHdr \{\s*LargeMemoryBlock \*memoryBlock;', 'LargeObjectHdr::memoryBlock')):
@@ -130,6 +203,10 @@ def build(ctx):
         Job('sizeclass.aligned_case1', C, 'h_aligned_case1', route='LF', defines=['SC'], target='allocateAligned case 1 arithmetic: getObjectSize(alignUp(size,a)) % a == 0', source=FE, timeout=600),
         Job('block.bump', C, 'h_bump', route='LF', defines=['BLK'], target='Block::allocateFromBumpPtr', source=FE, timeout=600),
         Job('block.find', C, 'h_find', route='LF', defines=['BLK'], target='Block::findAllocatedObject', source=FE, timeout=600),
+        Job('free.find_to_free', C, 'h_find_to_free', route='LF', defines=['BLK', 'FREE'], target='Block::findObjectToFree + isProperlyPlaced', source=FE, timeout=600),
+        Job('free.own', C, 'h_free_own', route='LF', defines=['BLK', 'FREE'], target='Block::freeOwnObject', source=FE, timeout=600),
+        Job('free.public', C, 'h_free_public', route='RG', defines=['BLK', 'FREE'], loops=True, nloops=1, target='Block::freePublicObject (public list push)', source=FE, timeout=600),
+        Job('free.small', C, 'h_free_small', route='LF', defines=['BLK', 'FREE'], target='freeSmallObject (own / foreign thread dispatch; callees by their proved behaviour)', source=FE, timeout=600),
         Job('realloc.large', C, 'h_realloc_large', route='LF', defines=['RA'], target='reallocAligned (large-object branch)', source=FE, timeout=600),
         Job('realloc.small', C, 'h_realloc_small', route='LF', defines=['RA'], target='reallocAligned (slab-object branch)', source=FE, timeout=600),
     ]
@@ -139,9 +216,9 @@ def build(ctx):
                     'allocateAligned / internalPoolMalloc / internalPoolFree / remap / findObjectSize / getMaxBinnedSize / isLargeObject as contract stubs in the reallocAligned proof',
                     'memcpy replaced by a stub that checks both ranges are accessible for the requested length (no bytes copied)'],
         'drops': ['namespace-scope const -> #define', 'MALLOC_ASSERT -> proof obligation', 'STAT_increment -> RG_NOP()', 'template<bool> -> parameter', '#if chains resolved for x86-64 linux (BACKEND_HAS_MREMAP=1)'],
-        'not_decided': ['cross-thread free / public free list / orphan adoption races', 'backend coalescing (disjointness between slabs and large blocks)', 'getFromLLOCache placement', 'allocateAligned as a whole',
+        'not_decided': ['privatizePublicFreeList / orphan adoption races; the mailbox notification tail of freePublicObject', 'backend coalescing (disjointness between slabs and large blocks)', 'getFromLLOCache placement', 'allocateAligned as a whole',
                         'never writes into a live block (global)', 'scalable_calloc zero-fill'],
-        'assumptions': ['slab objects are placed at multiples of objectSize from the slab end (established by allocateFromBumpPtr: proved; preserved by the free list: not modelled)'],
+        'assumptions': ['slab objects are placed at multiples of objectSize from the slab end (established by allocateFromBumpPtr: proved; preserved by the free lists: every address pushed by freeOwnObject / freePublicObject is proved to be such a start; the pop side (allocateFromFreeList, privatizePublicFreeList) is not under contract)', 'a pointer passed to free is the start of a live slab object, or (fitting bins only) an address inside it aligned to 2*fittingAlignment - what allocateAligned hands out'],
     }
 
 
